@@ -76,7 +76,7 @@ def expand(spec):
     p["policy"] = rng.choice(["uniform", "round_robin", "starve", "burst", "eager"])
     p["max_trials"] = rng.randint(4, 40)
     p["max_events"] = rng.randint(40, 500)
-    p["space"] = gen.small_space(rng, ensure_infinite=True)
+    p["space"] = gen.small_space(rng, ensure_infinite=True, ordinal_kinds=("equal",))
     if p["type"] == "rush_stopping":
         p["rush_candidates"] = rng.choice([0, 0, 1, 2, 3])
     p.update({k: v for k, v in spec.items() if k != "seed"})
